@@ -8,6 +8,7 @@ use rtref::codec::{self, Msg};
 use rtref::proto::VER_IETF13;
 use rtref::responder::{classic_request, ietf_request};
 use rtref::crypto;
+use rtref::Version;
 use serde_json::{json, Value};
 use std::sync::atomic::{AtomicU64, Ordering::Relaxed};
 use std::sync::Mutex;
@@ -61,10 +62,23 @@ pub fn alphabet_multi(seed: u64) -> Vec<(&'static str, Vec<Vec<u8>>)> {
 /// Valid requests of each shape with one header word replaced (see `run`).
 pub fn header_sweeps() -> Vec<(String, Vec<u8>)> {
     let mut out = vec![];
+    // requests carrying BOTH padding tags (legal: any known tags may accompany the nonce)
+    let both_pads = |framed: bool| -> Vec<u8> {
+        let mut pairs: Vec<(&str, Vec<u8>)> = if framed { vec![("VER", VER_IETF13.to_vec()), ("NONC", nonce(0x5e5, 32))] } else { vec![("NONC", nonce(0x5e4, 64))] };
+        pairs.push(("ZZZZ", vec![0u8; 400]));
+        let k = pairs.len() + 1;
+        let total = if framed { 1012 } else { 1024 };
+        let used = codec::header_len(k) + pairs.iter().map(|p| p.1.len()).sum::<usize>();
+        pairs.push(("PAD", vec![0u8; total - used]));
+        let b = Msg::from_pairs(&pairs).encode();
+        if framed { codec::frame(&b) } else { b }
+    };
     let bases: Vec<(&str, Vec<u8>, usize)> = vec![
         ("classic", classic_request(&nonce(0x5e1, 64), 1024), 0),
         ("ietf", ietf_request(&VER_IETF13, None, &nonce(0x5e2, 32), 1024), 12),
         ("ietf-srv", ietf_request(&VER_IETF13, Some(&crypto::srv_value(&crypto::public_key(&SrvCfg::default().seed))), &nonce(0x5e3, 32), 1024), 12),
+        ("classic-both-pads", both_pads(false), 0),
+        ("ietf-both-pads", both_pads(true), 12),
     ];
     let mut tags: Vec<u32> = codec::known_tags().iter().map(|t| u32::from_le_bytes(*t)).collect();
     tags.extend([u32::from_le_bytes(*b"XXXX"), u32::from_le_bytes(*b"PAD\x00"), 0, 0xffff_ffff]);
@@ -312,6 +326,63 @@ pub fn run(ctx: &Ctx) -> Result<(), String> {
             return Err(e);
         }
     }
+    // bursts of k valid requests of one protocol queued before the first step (Merkle paths of every
+    // depth 0..=6 and the step from one batch to two), preceded by nothing / by a smaller burst, at
+    // three log levels
+    let burst_ks: Vec<usize> = ctx.tier.pick(vec![4, 8, 16, 17, 32, 33, 63, 64, 65, 129], (2..=130).collect());
+    let mut burst_n = 0u64;
+    for level in [log::LevelFilter::Off, log::LevelFilter::Info, log::LevelFilter::Trace] {
+        inproc::set_level(level);
+        let mut cases: Vec<(Version, usize, bool, u8)> = vec![];
+        for v in [Version::Classic, Version::Ietf13] {
+            for &k in &burst_ks {
+                for warm in [false, true] {
+                    for bs in [64u8, 33] {
+                        cases.push((v, k, warm, bs));
+                    }
+                }
+            }
+        }
+        burst_n += cases.len() as u64;
+        par_for(cases.len(), 1, |ci, _| {
+            let (v, k, warm, bs) = cases[ci];
+            let cfg = SrvCfg { batch_size: bs, ..Default::default() };
+            let r = (|| -> Result<Option<(String, String)>, String> {
+                let mut p = Prober::new(&cfg)?;
+                let ks: Vec<usize> = if warm { vec![3, k] } else { vec![k] };
+                for (round, &kk) in ks.iter().enumerate() {
+                    let cs: Vec<Client> = (0..kk).map(|_| Client::new()).collect();
+                    let reqs: Vec<Vec<u8>> = (0..kk).map(|i| rtref::responder::std_request(v, &nonce(0xb0000 + (round * 1000 + i) as u64, v.nonce_len()))).collect();
+                    for (c, r) in cs.iter().zip(&reqs) {
+                        c.send(p.srv.addr, r);
+                    }
+                    if let Err(pn) = p.srv.settle() {
+                        return Ok(Some(("panic".into(), format!("process_events panicked on a burst of {} valid {} requests: {}", kk, v.name(), pn))));
+                    }
+                    for (c, r) in cs.iter().zip(&reqs) {
+                        let got = c.drain();
+                        if got.len() != 1 || rtref::verifier::authentic(&got[0].0, r, v, Some(&p.lt_pk), rtref::verifier::SERVER_VIEW).is_err() {
+                            return Ok(Some(("sentinel-unanswered".into(), format!("burst of {} valid {} requests: a request got {} datagrams / not authentic", kk, v.name(), got.len()))));
+                        }
+                    }
+                }
+                sentinels(&mut p)
+            })();
+            evals.fetch_add(1, Relaxed);
+            transitions.fetch_add(k as u64 + 8, Relaxed);
+            match r {
+                Err(e) => *failed.lock().unwrap() = Some(e),
+                Ok(None) => {}
+                Ok(Some((clause, msg))) => ctx.violation(&clause, panic_site(&msg), &format!("burst-of-valid-requests@{}", if level >= log::LevelFilter::Debug { "debug-or-trace" } else { "upto-info" }),
+                    json!({"kind":"burst","version":v.name(),"requests":k,"after_a_burst_of_3":warm,"batch_size":bs,"log_level":format!("{}", level),"message":msg})),
+            }
+        });
+        if let Some(e) = failed.lock().unwrap().take() {
+            inproc::set_level(log::LevelFilter::Off);
+            return Err(e);
+        }
+    }
+    ctx.cov("bursts_of_valid_requests", json!(burst_n));
     // thorough: the C07 datagram space as single-datagram histories at level Trace
     let mut extra = 0usize;
     if ctx.tier == Tier::Thorough {
@@ -363,7 +434,7 @@ pub fn run(ctx: &Ctx) -> Result<(), String> {
     ctx.cov("log_records_formatted", json!(inproc::LOG_RECORDS.load(Relaxed)));
     ctx.cov("exhaustive", json!(true));
     ctx.cov("bound", json!({"sequence_length": d, "alphabet": al.iter().map(|a| a.0).collect::<Vec<_>>(), "log_levels": 6, "fault_percentage": faults, "batch_size": bss, "extra_single_datagrams_at_trace": extra, "header_sweep_datagrams_x6_levels": sweeps.len()}));
-    ctx.cov("rule", json!(format!("all sequences of length 1..={} over {} datagram classes (15 single datagrams + 2/3 valid requests of one protocol arriving together), each executed twice (stepping after every datagram; all queued before the first step) on a fresh real in-process Server, for every log level Off..Trace (a capturing logger formats every enabled record) x fault_percentage {{0,50}} x batch_size {{1,2,64}}; after the sequence a pair of valid requests of each protocol queued together and then one of each alone must be answered (fault 0: with an authentic reply). Plus {} near-valid single datagrams (every header word of a valid classic / IETF / IETF+SRV request swept: all aligned offset values 0..len+16, counts 0..=20, every known tag, offset pairs on a grid) at every log level. Oracle: process_events never unwinds, sentinels answered. A failing history is minimised by dropping events. states = histories x configurations; every one executes on the implementation.", d, al.len(), sweeps.len())));
+    ctx.cov("rule", json!(format!("all sequences of length 1..={} over {} datagram classes (15 single datagrams + 2/3 valid requests of one protocol arriving together), each executed twice (stepping after every datagram; all queued before the first step) on a fresh real in-process Server, for every log level Off..Trace (a capturing logger formats every enabled record) x fault_percentage {{0,50}} x batch_size {{1,2,64}}; after the sequence a pair of valid requests of each protocol queued together and then one of each alone must be answered (fault 0: with an authentic reply). Plus {} near-valid single datagrams (every header word of a valid classic / IETF / IETF+SRV request swept: all aligned offset values 0..len+16, counts 0..=20, every known tag, offset pairs on a grid) at every log level. Plus bursts of k valid requests of one protocol (k around every power of two up to 129; thorough every k 2..=130), fresh and after a burst of 3, batch_size 64 and 33, at three log levels: every request answered authentically. Oracle: process_events never unwinds, sentinels answered. A failing history is minimised by dropping events. states = histories x configurations; every one executes on the implementation.", d, al.len(), sweeps.len())));
     ctx.sample(json!({"classes":["classic-empty-nonce"],"log_level":"DEBUG","fault":0,"batch_size":64}));
     ctx.sample(json!({"classes":["random-65507","valid-ietf","ietf-header-mutated"],"log_level":"TRACE","fault":50,"batch_size":2}));
     ctx.assume("log level is process-global in the `log` crate: levels are explored one after another, all worker threads sharing the level");
@@ -385,6 +456,29 @@ pub fn replay_case(c: &Value) -> Result<Option<String>, String> {
     let dgs: Vec<Vec<u8>> = match c["kind"].as_str() {
         Some("sequence") => c["datagrams"].as_array().ok_or("datagrams")?.iter().map(|h| crypto::unhex(h.as_str().unwrap_or(""))).collect(),
         Some("datagram") => vec![crypto::unhex(c["hex"].as_str().ok_or("hex")?)],
+        Some("burst") => {
+            let v = if c["version"] == "classic" { Version::Classic } else { Version::Ietf13 };
+            let k = c["requests"].as_u64().ok_or("requests")? as usize;
+            let warm = c["after_a_burst_of_3"].as_bool().unwrap_or(false);
+            let r = crate::util::on_named_thread("worker-0", move || -> Result<Option<String>, String> {
+                let mut p = Prober::new(&cfg)?;
+                for kk in if warm { vec![3, k] } else { vec![k] } {
+                    let cs: Vec<Client> = (0..kk).map(|_| Client::new()).collect();
+                    for (i, c) in cs.iter().enumerate() {
+                        c.send(p.srv.addr, &rtref::responder::std_request(v, &nonce(0xb0000 + i as u64, v.nonce_len())));
+                    }
+                    if let Err(pn) = p.srv.settle() {
+                        return Ok(Some(format!("panic {}", pn)));
+                    }
+                    if cs.iter().any(|c| c.drain().len() != 1) {
+                        return Ok(Some("a request of the burst was not answered exactly once".into()));
+                    }
+                }
+                Ok(None)
+            })?;
+            inproc::set_level(log::LevelFilter::Off);
+            return Ok(r);
+        }
         _ => return Err("kind".into()),
     };
     let al: Vec<(&'static str, Vec<Vec<u8>>)> = dgs.into_iter().map(|d| ("replayed", vec![d])).collect();
